@@ -338,6 +338,19 @@ def check(facts, rep, tier, cfg):
     check_dropped_flow_senders(facts, rep, crate, "C02.R12")
     import adapter
     adapter.check_adapter(facts, rep, "C02.S8")
+    # ---- R13 a new stream never takes the id of a live one (= C07.R1 / R2)
+    rep.rule("C02.R13", "no cross-talk through id allocation (= C07.R2): the flow-id generators return only ids that are not in the flow table "
+                        "(and non-zero): an id of a live stream handed to a new one replaces that stream's slot - its reader sees EOF and the "
+                        "peer's later data is answered with Reset")
+    import rules_c07
+    sub7 = type(rep)(rep.prop, rep.tier, rep.config)
+    rules_c07.check(facts, sub7, tier, cfg)
+    for i in sub7.instances:
+        if i["rule"] in ("C07.R1", "C07.R2"):
+            rep.ok("C02.R13", "%s/%s" % (i["rule"], i["key"]), i["where"], i["detail"], nontrivial=False)
+    for v in sub7.violations:
+        if v["rule"] in ("C07.R1", "C07.R2"):
+            rep.bad("C02.R13", v["key"], v["where"], v["msg"])
     import_constructor_rule(facts, rep, "C02.S9", ['new_push', 'new_push_owned', 'new_push_vectored'])
     rep.rule("C02.S7", "who-may: the functions that touch the critical resources behind this property are those of the reference tree (flow table, closed flag, per-stream / datagram / outbound queues, last-pong timestamp, client id maps, shared TLS identity)")
     import whomay
